@@ -164,6 +164,10 @@ let handle (req : sexp) : sexp =
     let D (o, rd, pr) = dom_of d in
     let vl s = List.map (fun x -> rd (atom x)) (lst s) in
     L (List.map (fun v -> A (pr v)) (cumsum_noskip_spec o (zlist codes) (vl vals) (bmask_of m)))
+  | L [A "cumext_noskip_spec"; d; wm; codes; vals; m] ->
+    let D (o, rd, pr) = dom_of d in
+    let vl s = List.map (fun x -> rd (atom x)) (lst s) in
+    L (List.map (fun v -> A (pr v)) (cumext_noskip_spec o (atom wm <> "0") (zlist codes) (vl vals) (bmask_of m)))
   | L [A "rolling"; d; kind; codes; vals; ng; w; mp; m] ->
     let D (o, rd, pr) = dom_of d in
     let vl s = List.map (fun x -> rd (atom x)) (lst s) in
